@@ -25,7 +25,7 @@ RULE = ("ChaosModel(seed, cfg): plain / grid / line / continuous (wrapping or no
         "inside timesteps; non-trivial = >=1 pick and >=1 shuffle over >=3 agents and >=1 perturbation fired between "
         "two draws; distinct = (world, system mix, perturbation kinds and placement); cross-environment arm: fresh "
         "interpreters under other PYTHONHASHSEEDs and real batch_run workers"
-        "; also: str / bytes / float label seeds, environments handed from a builder model to the run model (Environment.set_model), a grid-walk system that reorders the neighbour lists it gets from the world in place; secondary arms: a model built here and finished in a forked child; a Core-only model in fresh interpreters with and without numpy / ECAgent.Environments imported beforehand")
+        "; also: str / bytes / float label seeds, environments handed from a builder model to the run model (Environment.set_model), a grid-walk system that reorders the neighbour lists it gets from the world in place, another model failing inside one of its timesteps, driver-level draws between timesteps; secondary arms: a model built here and finished in a forked child; a Core-only model in fresh interpreters with and without numpy / ECAgent.Environments imported beforehand")
 COMPONENTS = {"real": ["ECAgent.Core.Model.random", "Environment.get_random_agent / shuffle / get_agents",
                        "SpaceWorld / GridWorld / LineWorld add_agent, move, remove_agent", "AgentCollector",
                        "ECAgent.Batching.batch_run with the real multiprocessing.Pool (cross-environment arm)"],
@@ -33,7 +33,7 @@ COMPONENTS = {"real": ["ECAgent.Core.Model.random", "Environment.get_random_agen
                        "numpy.random are perturbed, not replaced"]}
 PROBES = ["perturb_inside_timestep", "perturb_between_timesteps", "other_model_same_seed_interleaved",
           "filtered_pick_2plus_candidates", "reseed", "consume", "np_seed", "np_rand", "new_model", "step_other",
-          "string_seed", "spatial_world", "environment_handed_to_another_model"]
+          "string_seed", "spatial_world", "environment_handed_to_another_model", "crash_other"]
 TECHNIQUE = "deterministic simulation: seeded perturbation schedule over every ambient randomness source (global RNGs, other models, hash seed, worker process) with a single-digest oracle"
 LEVEL_TEXT = ("Seeded search over model configurations, seeds and ambient perturbation schedules; the full trace digest of the "
               "perturbed run must equal that of an undisturbed run of the same (seed, cfg), and so must every other live model "
@@ -42,7 +42,7 @@ LEVEL_TEXT = ("Seeded search over model configurations, seeds and ambient pertur
 LEVEL_NOTE = ("Trusted: the workload draws randomness only through the framework; seed=None (OS entropy) is not generated; "
               "process / hash-seed arms are real (not simulated) and their expected outcome is a deterministic digest.")
 SHRINK_LISTS = ["perturb", "others", "pre"]
-OPS = ["reseed", "consume", "np_seed", "np_rand", "new_model", "step_other", "shuffle_global"]
+OPS = ["reseed", "consume", "np_seed", "np_rand", "new_model", "step_other", "shuffle_global", "crash_other"]
 
 
 def gen_seed(rng):
@@ -180,11 +180,20 @@ def execute(sc, ctx):
             m2 = chaos.ChaosModel(seed if same else arg, key if arg % 3 else altkey)
             for _ in range(arg % 4):
                 m2.execute()
+        elif kind == "crash_other":
+            # another model fails inside one of its timesteps; the caller catches the error and carries on
+            cm = chaos.ChaosModel(arg, key if arg % 2 else altkey)
+            cm.systems.add_system(chaos.Bomb("bomb", cm, priority=[9, 3, 0, -3][arg % 4]))
+            try:
+                cm.execute()
+            except chaos.BombError:
+                pass
         elif kind == "step_other":
             if others:
                 o = others[arg % len(others)]
                 if o["m"].is_running():
                     o["m"].execute()
+                    o["m"].between()
                     if o["seed"] == seed and o["key"] == key:
                         ctx.probe("other_model_same_seed_interleaved")
 
@@ -221,6 +230,7 @@ def execute(sc, ctx):
                 ambient(p)
             ctx.steps += 1
             target.execute()
+            target.between()
             ctx.sim_time += 1
             guard += 1
     finally:
@@ -273,7 +283,7 @@ def post_batch(tier, seed):
     jobs = []
     for i in range(n):
         rng = random.Random(run_seed(seed, "C07-cross", i))
-        jobs.append([gen_seed(rng), chaos.gen_cfg(rng, tier)])
+        jobs.append([gen_seed(rng), dict(chaos.gen_cfg(rng, tier), driver_draws=False)])     # (batch_run is the driver in these arms)
     # label seeds are legal (random.Random hashes str/bytes deterministically): always include a few
     for i, lab in enumerate(["experiment-A", {"bytes": "7265706c69636174652d37"}, "run #12"]):
         jobs[i][0] = lab
